@@ -676,7 +676,7 @@ PROPS["C16"] = dict(
     level_note="Failure positions are enumerated completely per tree for the leaf recorder.",
     rule=("cases = walks (tree x recorder x failure position); distinct_nontrivial = distinct program texts for which all 16 recorders and the statement recorder matched."),
     exhaustive="per tree: every failure position k of the leaf recorder",
-    require=["trees", "walks_matched", "events_compared", "failure_injection_runs", "partial_visitor_walks_matched", "set:node_types_observed:15",
+    require=["trees", "walks_matched", "events_compared", "failure_injection_runs", "partial_visitor_walks_matched", "marked_default_walks_matched", "combine_all_calls_matched", "set:node_types_observed:15",
              "set:statement_kinds:19", "set:event_types:9"],
     assumptions=TRUST_BASE,
     stages=dict(quick=[native("dbg", scale=15)], thorough=[native("dbg", scale=8), native("rel", scale=8)]),
